@@ -1428,7 +1428,7 @@ func c01NewSys(t *testing.T, rec *vRecorder, cfg string, principalAPI bool) *c01
 			set[c] = struct{}{}
 			ids = append(ids, c01ChanID(c))
 		}
-		if principalAPI {
+		if principalAPI || named { // (in a named collection the users are always created through the admin API)
 			// the admin API path: allocates a sequence for the principal document, grants at that sequence
 			pw := "letmein"
 			pc := &auth.PrincipalConfig{Name: &name, Password: &pw, ExplicitChannels: set}
@@ -1440,15 +1440,7 @@ func c01NewSys(t *testing.T, rec *vRecorder, cfg string, principalAPI bool) *c01
 				t.Fatalf("UpdatePrincipal: %v", err)
 			}
 		} else {
-			var u auth.User
-			var err error
-			if named {
-				if u, err = a.NewUser(name, "letmein", nil); err == nil {
-					u.SetCollectionExplicitChannels(col.ScopeName, col.Name, channels.AtSequence(set, 1), 0)
-				}
-			} else {
-				u, err = a.NewUser(name, "letmein", set)
-			}
+			u, err := a.NewUser(name, "letmein", set)
 			if err != nil {
 				t.Fatalf("NewUser: %v", err)
 			}
@@ -1777,7 +1769,7 @@ func (s *c01Sys) run(q c01Req) ([]c01Row, bool) {
 		}
 		rows = append(rows, s.projectRow(e))
 	}
-	return rows, ok
+	return s.normalizeRebuiltDeletion(q.String(), rows), ok
 }
 
 // ---------- Go-side specification helpers for the monitors ----------
@@ -1983,7 +1975,7 @@ func (s *c01Sys) adminFeeds(q c01Req, low uint64) (feeds [][]c01Row, hi uint64, 
 			}
 			rows = append(rows, s.projectRow(e))
 		}
-		feeds = append(feeds, rows)
+		feeds = append(feeds, s.normalizeRebuiltDeletion(q.String()+" (channel feed "+name+")", rows))
 	}
 	return feeds, hi, true
 }
